@@ -247,8 +247,11 @@ def crash_job(job):
             cs = cfg2["current"]["cstep"]
             if any(abs(t - cs) > 1e-9 * cs for t in tot):
                 rec.violation(f"C08:weights-not-conserved-across-the-crash@{where}{cutclass}", f"column sums {tot} vs cstep {cs}", replay)
-        if res.get("cstep_end") != N2:
-            rec.violation(f"C08:continuation-did-not-reach-the-requested-steps@{where}", f"{res.get('cstep_end')} != {N2}", replay)
+        # (a planned second crash point that the recovery run's first step never reaches lets that run finish; the final
+        #  continuation then has nothing left to do and builds no state: the step counter is read from the restart file)
+        reached = res.get("cstep_end") if res.get("cstep_end") is not None else cfg2["current"]["cstep"]
+        if reached != N2:
+            rec.violation(f"C08:continuation-did-not-reach-the-requested-steps@{where}", f"{reached} != {N2}", replay)
     finally:
         isolate.rmscratch(d)
     return rec
